@@ -143,7 +143,7 @@ class Check:
         elif res == "sat":
             inputs = describe(model) if describe else {"model": self.model_text(model)}
             entry = {"inputs": inputs, "model": self.model_text(model)}
-            if replay is not None:
+            if replay is not None and not ob.refuted:
                 try:
                     ok, text = replay(inputs)
                 except Exception as e:  # replay harness fault: the violation is still reported
